@@ -18,6 +18,7 @@ import traceback
 from . import build
 
 VERIF = build.VERIF
+OUTDIR = os.environ.get("VERIF_OUT", VERIF)      # evidence/ and replays/ go here (scratch runs against mutants redirect it)
 TIER_DEADLINE = {"quick": 900.0, "thorough": 3600.0}
 
 
@@ -109,13 +110,13 @@ def _match_known(prop, sig, known):
 
 
 def write_evidence(prop, tier, seed, level, coverage, assumptions, wall, violations):
-    os.makedirs(os.path.join(VERIF, "evidence"), exist_ok=True)
+    os.makedirs(os.path.join(OUTDIR, "evidence"), exist_ok=True)
     ev = {"property_id": prop, "tier": tier, "seed": seed, "level": level, "coverage": coverage,
           "assumptions": assumptions, "wall_s": round(wall, 2), "violations": violations}
-    tmp = os.path.join(VERIF, "evidence", prop + ".json.tmp")
+    tmp = os.path.join(OUTDIR, "evidence", prop + ".json.tmp")
     with open(tmp, "w") as fh:
         json.dump(ev, fh, indent=1, default=str)
-    os.replace(tmp, os.path.join(VERIF, "evidence", prop + ".json"))
+    os.replace(tmp, os.path.join(OUTDIR, "evidence", prop + ".json"))
 
 
 def run(module, tier, seed, nproc=16):
@@ -188,12 +189,12 @@ def run(module, tier, seed, nproc=16):
             violations.append(f)
     if nondet:
         return 2
-    os.makedirs(os.path.join(VERIF, "replays"), exist_ok=True)
+    os.makedirs(os.path.join(OUTDIR, "replays"), exist_ok=True)
     for sig, (k, f) in known_hits.items():
         print("KNOWN-FINDING: property=%s %s [%s]" % (prop, k.get("what", sig), sig))
     paths = []
     for i, f in enumerate(violations[:20]):
-        path = os.path.join(VERIF, "replays", "%s-%d.json" % (prop, i))
+        path = os.path.join(OUTDIR, "replays", "%s-%d.json" % (prop, i))
         with open(path, "w") as fh:
             json.dump({"property": prop, "tier": tier, "seed": seed, "signature": f["sig"], "message": f["msg"], "case": f["case"]}, fh, indent=1)
         paths.append(path)
@@ -221,13 +222,13 @@ def run(module, tier, seed, nproc=16):
 
 def _build_failure(module, ctx, e, t0):
     prop = module.PROPERTY
-    os.makedirs(os.path.join(VERIF, "replays"), exist_ok=True)
+    os.makedirs(os.path.join(OUTDIR, "replays"), exist_ok=True)
     if e.kind == "harness":
         print("HARNESS-OUT-OF-DATE property=%s (the library builds, the harness does not)\n%s" % (prop, e.msg[-3000:]))
         return 2
     # the library itself does not build in some configuration
     cfg_violation = getattr(module, "CONFIG_BUILD_FAILURE_IS_VIOLATION", False)
-    path = os.path.join(VERIF, "replays", "%s-build.json" % prop)
+    path = os.path.join(OUTDIR, "replays", "%s-build.json" % prop)
     with open(path, "w") as fh:
         json.dump({"property": prop, "build_failure": e.msg[-8000:]}, fh, indent=1)
     if cfg_violation and e.config not in (None, "asm") and _default_builds():
